@@ -15,7 +15,15 @@ RULE = ("complete layer: every well-formed document with <= 3 nodes over keys {a
         "with <= 3 nodes over keys {a,' a'} and values {' a','a ',' ','a b',' 1',1} x 189 one-segment searches whose term has a "
         "quoted or escaped blank at its edge (' ', ' a', 'a ', \\ a, a\\ , \" a\", ' 1'; interior blank as control) x all operators, "
         "on '.' and on an attribute, plain and inverted, and regular expressions with edge blanks - the same terms and values also "
-        "occur in the random layer; when the real parser delivers a SEARCH segment that differs from the search written in the path "
+        "occur in the random layer; the look-alike key layer (complete): every document with <= 3 nodes in which a Hash holds BOTH "
+        "spellings of an integer-looking key - the text key '1' and the integer key 1 (or '-1' and -1), in either order, values "
+        "{null,1,'a'} - x 29 one-segment paths (keys 1, 01, 0, -1, -01, a; wildcards; searches on '.', on attribute 1 / -1; hash slices; "
+        "has_child / name / parent / max / min / unique) and the 12 x 12 two-segment paths of a core list, and every such Hash with "
+        "scalar values placed under a key, in a list, in an Array-of-Hashes between records holding only one of the spellings, under "
+        "a key of the records of an Array-of-Hashes and in a list under a key x the two-segment paths and the three-segment paths "
+        "that reach the key through key / index / pass-through / wildcard / deep-traversal prefixes (a KEY segment names the text "
+        "key and falls back to the integer key only when the text key is absent: one node per Hash); 15 % of the random documents "
+        "may also hold such twins (keys 1/'1', -1/'-1', 2/'2' in one Hash or Array-of-Hashes record); when the real parser delivers a SEARCH segment that differs from the search written in the path "
         "text (as read by the parser model), the specification is evaluated on the search as written; plus seeded-random documents (<= 25 nodes: Arrays-of-Hashes, sets, anchors and "
         "aliases, nested lists) x random paths of <= 5 segments (indexes and slice bounds in -9..9).  Each case is asked through "
         "get_nodes(mustexist=True) and exists() in dot notation, get_nodes(mustexist=True) in slash notation (when both texts parse "
@@ -36,7 +44,7 @@ RULE = ("complete layer: every well-formed document with <= 3 nodes over keys {a
 THOROUGH_ANCH2 = 120      # anchored variants (a seeded sample, not part of the complete layer) in the thorough two-segment product
 
 
-def build_jobs(chk, opts, nrand_quick=60000, nrand_thorough=700000, grid=False, blank=False):
+def build_jobs(chk, opts, nrand_quick=60000, nrand_thorough=700000, grid=False, blank=False, twins=False):
     rng = random.Random(chk.seed)
     tier = chk.tier
     jobs = []
@@ -74,9 +82,18 @@ def build_jobs(chk, opts, nrand_quick=60000, nrand_thorough=700000, grid=False, 
         cases += [(d, [p]) for d in docs_b for p in ev.BLANK_VOCAB]
         chk.extra_cov["blank_edge_layer"] = "%d documents (<= 3 nodes, values/keys with leading / trailing blanks) x %d search items" % (
             len(docs_b), len(ev.BLANK_VOCAB))
+    # Hashes holding both spellings of an integer-looking key ('1' and 1): complete layer, and a share of the random documents
+    if twins:
+        tw, ntw = ev.twin_cases()
+        cases += tw
+        chk.extra_cov["lookalike_key_layer"] = ("%d documents in which a Hash holds an integer key and the text key of the same spelling "
+                                                "(either order; at the root, under a key, in lists and Arrays-of-Hashes), %d cases" % (ntw, len(tw)))
     rnd = []
     for _ in range(nrand):
-        d = ev.random_doc(rng, rng.choice([6, 10, 15, 25]))
+        if twins and rng.random() < 0.15:
+            d = ev.random_doc(rng, rng.choice([6, 10, 15, 25]), keys=ev.RKEYS + ["-1", "2"], twins=True)
+        else:
+            d = ev.random_doc(rng, rng.choice([6, 10, 15, 25]))
         rnd.append((d, ev.guided_path(rng, d) if rng.random() < 0.8 else ev.random_path(rng)))
     if grid:
         cases += index_grid()
@@ -170,7 +187,7 @@ def run(chk: core.Check):
     if chk.replay_in:
         return replay(chk, opts)
     chk.exhaustive = True
-    jobs = build_jobs(chk, opts, blank=True)
+    jobs = build_jobs(chk, opts, blank=True, twins=True)
     absorb(chk, core.pmap(ev.compare_chunk, jobs))
     collectors(chk)
     return chk
